@@ -130,8 +130,12 @@ def histogram2d(
     if logy:
         y = np.log10(y)
 
-    nx = resolution
-    ny = resolution
+    if isinstance(resolution, dict):
+        nx = resolution["x"]
+        ny = resolution["y"]
+    else:
+        nx = resolution
+        ny = resolution
 
     xmin, autoxmin = _parse_limit(xmin, x, logx, "min")
     xmax, autoxmax = _parse_limit(xmax, x, logx, "max")
